@@ -198,7 +198,7 @@ impl Enc<'_> {
     fn cloud(&mut self, c: &mut Cloud, ci: usize) {
         self.gap(&format!("cloud{ci}"));
         let n = c.points.len();
-        let streams: Vec<Vec<u8>> = c
+        let mut streams: Vec<Vec<u8>> = c
             .proto
             .iter()
             .enumerate()
@@ -207,6 +207,25 @@ impl Enc<'_> {
                 record_stream(r, &col)
             })
             .collect();
+        // the unused bits of the last byte of a bit-packed stream carry no data: a producer may
+        // leave anything there
+        if self.k.packets && n > 0 && self.ch.choose(&format!("cloud{ci}-padding-bits-set"), 2) == 1 {
+            let mut any = false;
+            for (r, st) in c.proto.iter().zip(streams.iter_mut()) {
+                if let Ty::Int { .. } | Ty::Scaled { .. } = r.ty {
+                    let used = (n * r.ty.bits() as usize) % 8;
+                    if used != 0 {
+                        if let Some(last) = st.last_mut() {
+                            *last |= 0xFFu8 << used;
+                            any = true;
+                        }
+                    }
+                }
+            }
+            if any {
+                self.notes.push(format!("cloud {ci}: unused bits of the last stream bytes set to 1"));
+            }
+        }
         let total: usize = streams.iter().map(|s| s.len()).sum();
         self.tail_without_packets = total == 0;
         self.cur_streams = streams.len();
